@@ -9,6 +9,7 @@ CONSTANTS
   TermIsForced = FALSE
   SecondStopHangs = FALSE
   AwaitsLastWorkerOnly = FALSE
+  WakeAcceptFirst = FALSE
 SPECIFICATION FairSpec
 PROPERTIES C06_AlwaysCompletes
 CHECK_DEADLOCK FALSE
